@@ -179,7 +179,8 @@ def polyLine (line : String) : String :=
             | some rings =>
               let spec := locateInPolygon p rings
               let model := PolyLocate.locatePointInPolygon p rings
-              let extra := if model == spec then "" else s!" MODEL-DIFFERS-FROM-SPEC:{locTok model}"
+              let modelI := PolyLocate.locateIndexed p rings
+              let extra := if model == spec && modelI == spec then "" else s!" MODEL-DIFFERS-FROM-SPEC:{locTok model}:{locTok modelI}"
               let s := locTok spec
               let hit := if spec == .exterior then 0 else 1
               let inn := if spec == .interior then 1 else 0
